@@ -29,6 +29,8 @@ inductive LErr where
   | valueError
   | indexError
   | keyError (k : Name)
+  | typeError
+  | notImplementedError
 deriving DecidableEq, Repr, Inhabited
 
 /-- an unsuffixed name (parameter, unlabelled variable, derived quantity) -/
@@ -242,6 +244,121 @@ def buildModel (b : Base) (lv : List (Name × Nat)) (maps : List (Name × List N
          derived := b.derived.map fun kd => (kd.1, { fn := kd.2.fn, args := kd.2.args.map (totalName lv) })
          rxns := rxns.flatten }
 
+/-! ### label maps as Python reads them: integer indices, a negative index counts from the end -/
+
+/-- `seq[i]` on a sequence of length `len`: `0 ≤ i < len` reads position `i`, `-len ≤ i < 0` reads
+    position `len + i`, anything else raises `IndexError` -/
+def pyIndex (len : Nat) (i : Int) : Except LErr Nat :=
+  if 0 ≤ i then (if i.toNat < len then .ok i.toNat else .error .indexError)
+  else if (-i).toNat ≤ len then .ok (len - (-i).toNat) else .error .indexError
+
+/-- `rate_suffix[i]` for any integer `i` -/
+def charAtI (suffix : Label) (i : Int) : Except LErr Bool := do
+  let j ← pyIndex suffix.length i
+  charAt suffix j
+
+/-- `_map_substrates_to_products` for any integer map -/
+def mapSubstratesToProductsI (suffix : Label) (labelmap : List Int) : Except LErr Label :=
+  labelmap.mapM (charAtI suffix)
+
+/-- body of the `for rate_suffix in ...` loop of `_create_isotopomer_reactions`, integer map -/
+def isoReactionI (r : BRxn) (labelmap : List Int) (bs bp : List Name) (ls lp : List Nat)
+    (ext : Label) (w : Label) : Except LErr LRxn := do
+  let suffix := w ++ ext
+  let productSuffix ← mapSubstratesToProductsI suffix labelmap
+  let productLabels := splitLabel productSuffix lp
+  let substrateLabels := splitLabel suffix ls
+  let newSubstrates := assignLabels bs substrateLabels
+  let newProducts := assignLabels bp productLabels
+  pure { name := ⟨r.name, some suffix⟩
+         fn := r.fn
+         args := replaceArgs bs newSubstrates bp newProducts [] r.args
+         stoich := repack newSubstrates newProducts }
+
+/-- `_create_isotopomer_reactions`, integer map (this is what the driver runs) -/
+def isotopomerReactionsI (lv : List (Name × Nat)) (r : BRxn) (labelmap : List Int) :
+    Except LErr (List LRxn) :=
+  let (bs, bp) := unpackStoich r.stoich
+  let ls := labelsPer lv bs
+  let lp := labelsPer lv bp
+  if labelmap.length < ls.sum then .error .valueError
+  else (patterns ls.sum).mapM (isoReactionI r labelmap bs bp ls lp (externalLabels lp.sum ls.sum))
+
+def buildRxnI (lv : List (Name × Nat)) (maps : List (Name × List Int)) (r : BRxn) :
+    Except LErr (List LRxn) :=
+  match maps.lookup r.name with
+  | none => pure [unmappedRxn lv r]
+  | some lm => isotopomerReactionsI lv r lm
+
+/-- `LabelMapper.build_model(initial_labels)`, integer maps (this is what the driver runs) -/
+def buildModelI (b : Base) (lv : List (Name × Nat)) (maps : List (Name × List Int))
+    (initLabels : List (Name × List Nat)) : Except LErr LModel := do
+  let rxns ← b.rxns.mapM (buildRxnI lv maps)
+  pure { pars := b.pars
+         vars := buildVars lv initLabels b.vars
+         totals := lv.map fun kn => (plain (kn.1 ++ "__total"), binaryLabels kn.1 kn.2)
+         derived := b.derived.map fun kd => (kd.1, { fn := kd.2.fn, args := kd.2.args.map (totalName lv) })
+         rxns := rxns.flatten }
+
+/-! ### stoichiometric coefficients as the base model stores them (`float | Derived`) -/
+
+/-- a stoichiometric coefficient of a base reaction: a Python `int`, a `float`, or a `Derived` -/
+inductive Coef where
+  | int (v : Int)
+  | float (q : Rat)
+  | derived
+deriving DecidableEq, Repr, Inhabited
+
+/-- Python's `int(q)` for a float: truncation towards zero -/
+def pyTrunc (q : Rat) : Int := if 0 ≤ q then q.floor else -((-q).floor)
+
+/-- what `_unpack_stoichiometries` reads, entry by entry (after repo commit "fix: LabelMapper accepts
+    whole-number float coefficients ..."): `n = int(v)` — a `Derived` is no number: `TypeError` —, then
+    `n != v` — a float that is not a whole number: `ValueError` —, then `[k] * ±n` -/
+def intCoefs : List (Name × Coef) → Except LErr (List (Name × Int))
+  | [] => .ok []
+  | (k, c) :: rest =>
+    match c with
+    | .derived => .error .typeError
+    | .int v => do
+      let r ← intCoefs rest
+      pure ((k, v) :: r)
+    | .float q =>
+      if ((pyTrunc q : Int) : Rat) = q then do
+        let r ← intCoefs rest
+        pure ((k, pyTrunc q) :: r)
+      else .error .valueError
+
+/-- one base reaction of `build_model`'s loop when the raw coefficients of some mapped reactions are
+    given in `raw` (reactions not listed there have the integer coefficients of their `BRxn`): a
+    mapped reaction is unpacked first — `TypeError` for a `Derived`, `ValueError` for a fractional
+    coefficient, whatever the map —,
+    an unmapped reaction is passed through -/
+def buildRxnP (lv : List (Name × Nat)) (maps : List (Name × List Int))
+    (raw : List (Name × List (Name × Coef))) (r : BRxn) : Except LErr (List LRxn) :=
+  match maps.lookup r.name with
+  | none => pure [unmappedRxn lv r]
+  | some lm =>
+    match raw.lookup r.name with
+    | none => isotopomerReactionsI lv r lm
+    | some st => do
+      let ist ← intCoefs st
+      isotopomerReactionsI lv { r with stoich := ist } lm
+
+/-- `LabelMapper.build_model` with raw coefficients (this is what the driver runs) -/
+def buildModelP (b : Base) (lv : List (Name × Nat)) (maps : List (Name × List Int))
+    (raw : List (Name × List (Name × Coef))) (initLabels : List (Name × List Nat)) :
+    Except LErr LModel := do
+  let rxns ← b.rxns.mapM (buildRxnP lv maps raw)
+  pure { pars := b.pars
+         vars := buildVars lv initLabels b.vars
+         totals := lv.map fun kn => (plain (kn.1 ++ "__total"), binaryLabels kn.1 kn.2)
+         derived := b.derived.map fun kd => (kd.1, { fn := kd.2.fn, args := kd.2.args.map (totalName lv) })
+         rxns := rxns.flatten }
+
+/-- the map with every index counted from the front (`len` = length of the rate suffix) -/
+def normMap (len : Nat) (labelmap : List Int) : Except LErr (List Nat) := labelmap.mapM (pyIndex len)
+
 /-! ### the public queries of `LabelMapper` -/
 
 /-- `LabelMapper.get_isotopomers`: `{name: _generate_binary_labels(name, num) for name, num in
@@ -352,6 +469,21 @@ def RxnOk (lv : List (Name × Nat)) (maps : List (Name × List Nat)) (r : BRxn) 
   match maps.lookup r.name with
   | some lm => nProd lv r ≤ lm.length ∧ MassAction lv r
   | none => (∀ kv ∈ r.stoich, lv.lookup kv.1 = none) ∧ (r.stoich.map (·.1)).Nodup
+
+/-- the flux of the base reaction called `n` at the totals of an isotopomer state (the `fluxes`
+    argument of `LinearLabelMapper.build_model` when it is taken from the base model at the same
+    pools); a name that is no reaction reads 0 -/
+def fluxAtTotals (b : Base) (lv : List (Name × Nat)) (σ : LName → Rat) (n : Name) : Rat :=
+  match b.rxns.find? (fun r => r.name == n) with
+  | some r => r.rate (totalsEnv lv σ)
+  | none => 0
+
+/-- net stoichiometric coefficient of compound `x` in the base reaction called `n` (0 for a name that
+    is no reaction) -/
+def netOf (b : Base) (n x : Name) : Int :=
+  match b.rxns.find? (fun r => r.name == n) with
+  | some r => netStoich r.stoich x
+  | none => 0
 
 /-! ### numeric reading of a whole labelled model (driver side of the tie) -/
 
